@@ -159,6 +159,61 @@ func (c *solverCase) variants(over actOverride, wscale float64) []variant {
 		{"direct", func() (*network.Network, error) { return c.Net.direct(over, wscale), nil }, false},
 		{"genome", func() (*network.Network, error) { return c.Net.viaGenome(over, wscale) }, false},
 	}
+	// the network as it is NOW: a network from which a fast solver was derived while it still had other weights and other
+	// activation types, and one link less, is then tuned in place (weights, activation types, the last link connected);
+	// every procedure - a fast solver derived afterwards too - computes the function of the network as it is
+	vs = append(vs, variant{"direct, tuned in place after a fast solver had been derived", func() (*network.Network, error) {
+		net := c.Net.direct(over, wscale)
+		type saved struct {
+			l *network.Link
+			w float64
+		}
+		var ws []saved
+		acts := map[*network.NNode]neatmath.NodeActivationType{}
+		var lastNode *network.NNode
+		var lastLink *network.Link
+		for _, n := range net.BaseNodes() {
+			if n.IsNeuron() {
+				acts[n] = n.ActivationType
+				if n.ActivationType == neatmath.TanhActivation {
+					n.ActivationType = neatmath.LinearActivation
+				} else {
+					n.ActivationType = neatmath.TanhActivation
+				}
+			}
+			for _, l := range n.Incoming {
+				ws = append(ws, saved{l, l.ConnectionWeight})
+				l.ConnectionWeight = -0.5*l.ConnectionWeight + 0.25
+				lastNode, lastLink = n, l
+			}
+		}
+		if lastLink != nil && len(lastNode.Incoming) > 1 && lastLink == lastNode.Incoming[len(lastNode.Incoming)-1] {
+			// take the last link out for the moment (it is the last one of its target and of its source)
+			src := lastLink.InNode
+			if k := len(src.Outgoing); k > 0 && src.Outgoing[k-1] == lastLink {
+				lastNode.Incoming = lastNode.Incoming[:len(lastNode.Incoming)-1]
+				src.Outgoing = src.Outgoing[:k-1]
+			} else {
+				lastLink = nil
+			}
+		} else {
+			lastLink = nil
+		}
+		if _, err := net.FastNetworkSolver(); err != nil {
+			return nil, err
+		}
+		if lastLink != nil {
+			lastNode.Incoming = append(lastNode.Incoming, lastLink)
+			lastLink.InNode.Outgoing = append(lastLink.InNode.Outgoing, lastLink)
+		}
+		for _, x := range ws {
+			x.l.ConnectionWeight = x.w
+		}
+		for n, a := range acts {
+			n.ActivationType = a
+		}
+		return net, nil
+	}, false})
 	if len(c.Net.Outputs) > 1 {
 		vs = append(vs, variant{"direct, neurons of the all-nodes list reversed", func() (*network.Network, error) { return c.Net.directShuffled(over, wscale), nil }, false})
 	}
